@@ -108,8 +108,9 @@ PRUNED_REPS = [0.0, 0.49, -0.3, 0.2]
 KEPT_REPS = [1.0, 0.51, -2.5, 1e30]
 
 
-def apply_config(els, cfg, rep=0):
-    """Realise an abstract configuration on the real parameters.  rep selects the representative values."""
+def apply_config(els, cfg, rep=0, via_data=False):
+    """Realise an abstract configuration on the real parameters.  rep selects the representative values; via_data writes
+    through `.data` (no version-counter bump) instead of in-place under no_grad - both are how masks get written in practice."""
     lo = PRUNED_REPS[rep % len(PRUNED_REPS)]
     hi = KEPT_REPS[rep % len(KEPT_REPS)]
     with torch.no_grad():
@@ -119,10 +120,11 @@ def apply_config(els, cfg, rep=0):
             v = cfg.get(i, e['default'])
             if e['kind'] == 'ch':
                 fm = e['obj']
+                tgt = fm.alpha.data if via_data else fm.alpha
                 if id(fm) not in done:
                     done.add(id(fm))
-                    fm.alpha.fill_(hi)
-                fm.alpha[e['idx']] = hi if v == 1 else lo
+                    tgt.fill_(hi)
+                tgt[e['idx']] = hi if v == 1 else lo
             elif e['kind'] == 'rf':
                 layer = e['obj']
                 k = layer.kernel_size[0]
@@ -130,13 +132,13 @@ def apply_config(els, cfg, rep=0):
                 # suffix of length r alive: theta_beta[i] = sum_{j<=i} |beta_j| ; zero the first k-r entries
                 # (a "pruned" representative must keep the running sum below threshold: use lo/k)
                 beta[:k - v] = lo / k
-                layer.timestep_masker.beta.copy_(beta)
+                (layer.timestep_masker.beta.data if via_data else layer.timestep_masker.beta).copy_(beta)
             elif e['kind'] == 'dil':
                 layer = e['obj']
                 L = layer.dilation_masker._gamma_len
                 gamma = torch.full((L,), hi)
                 gamma[:v] = lo / L
-                layer.dilation_masker.gamma.copy_(gamma)
+                (layer.dilation_masker.gamma.data if via_data else layer.dilation_masker.gamma).copy_(gamma)
 
 
 def describe(els, cfg):
